@@ -1,6 +1,7 @@
 """C03 — rectangular-family candidate fields stay on the land and respect spacing."""
 import json, re
 from fractions import Fraction as F
+import math
 from lib import *
 
 FNS = {"rectangular": 4, "bi_rectangle_nested": 5, "bi_rectangle_zoned_nested": 5, "square_and_near_square": 3}
@@ -175,6 +176,14 @@ Eval vm_compute in (length res, length (filter (fun r => negb (fst r)) res), len
     for m, L, W in lands:
         go = {"length": L} if m == "NEARSQUARE" else {"length": L, "width": W}
         cfgs.append(cfg(m, months=12, loads={"kind": "balanced", "scale": 26000.0, "seed": 4}, geom_over=go))
+    rb = cfg("RECTANGLE", months=12, loads={"kind": "balanced", "scale": 26000.0, "seed": 4}, geom_over={"length": 44.0, "width": 23.0, "b_min": 5.0, "b_max": 10.0})
+    rb["_changed_after_design"] = {"section": "geometric_constraints", "values": {"b_min": 3.0}, "design_found_first": False}
+    lands.append(("RECTANGLE", 44.0, 23.0))
+    cfgs.append(rb)
+    rn_ = cfg("NEARSQUARE", months=12, loads={"kind": "balanced", "scale": 26000.0, "seed": 4}, geom_over={"length": 39.0, "b": 6.5})
+    rn_["_changed_after_design"] = {"section": "geometric_constraints", "values": {"b": 5.0}, "design_found_first": True}
+    lands.append(("NEARSQUARE", 39.0, 39.0))
+    cfgs.append(rn_)
     for (m, L, W), r in zip(lands, e2e_runs(cfgs)):
         if not r.get("ok"):
             chk.notes.append({"design_run": m, "exc": r.get("exc"), "msg": r.get("msg")})
@@ -186,6 +195,14 @@ Eval vm_compute in (length res, length (filter (fun r => negb (fst r)) res), len
         if min(xs) < -1e-9 or min(ys) < -1e-9 or max(xs) > L + 1e-9 or max(ys) > W_ + 1e-9:
             chk.violation("design-land", r["cfg"], {"boreholes": r["nbh"], "x_range": [min(xs), max(xs)], "y_range": [min(ys), max(ys)]},
                           f"every borehole of the returned field inside the land: 0 <= x <= length = {L}, 0 <= y <= width = {W_}")
+        gc_ = r["cfg"]["geometric_constraints"]
+        bmin_ = gc_.get("b_min", gc_.get("b"))
+        if bmin_ is not None and r["nbh"] > 1:
+            pts_ = r["coords"]
+            md = min(math.hypot(a_[0] - b_[0], a_[1] - b_[1]) for i_, a_ in enumerate(pts_) for b_ in pts_[i_ + 1:])
+            if md < bmin_ - 1e-9 or (m == "NEARSQUARE" and abs(md - bmin_) > 1e-9):
+                chk.violation("design-land", r["cfg"], {"boreholes": r["nbh"], "smallest_distance": md},
+                              f"boreholes of the returned field at least b_min = {bmin_} apart (near-square: exactly b)")
     return chk.finish(assumptions=["float stream compared with 1e-9 m tolerance; theorems are about exact rationals"])
 
 
